@@ -550,6 +550,8 @@ pub fn plan(tier: Tier) -> Plan {
         }));
     }
     p.rule.push_str(super::seqread::RULE);
+    p.rule.push_str(super::seqread::RULE_CONCURRENT);
+    super::seqread::add_concurrent_unit(&mut p, super::seqread::Class::Stream);
     super::seqread::add_units(&mut p, super::seqread::Class::Stream, if tier.thorough() { 5 } else { 4 });
     p
 }
